@@ -1,4 +1,5 @@
-// replay driver (appended to store/sqlite/src/tests.rs of a scratch copy): create -> find must return every field.
+// replay driver (appended to store/sqlite/src/tests.rs of a scratch copy): create -> find must return every field, update -> find every
+// changed field (all six collections, every field given its own distinct value), and an update leaves other rows alone.
 #[tokio::test(flavor = "multi_thread", worker_threads = 2)]
 async fn verif_replay_sqlite_roundtrip() {
     let store = store().await;
@@ -48,6 +49,38 @@ async fn verif_replay_sqlite_roundtrip() {
     store.messages().update(&g2).unwrap();
     let h2 = store.messages().find(&g.id).unwrap();
     cmp!("messages(update)", g2, h2, id, create_time, update_time, retry_times, status, timestamp);
+    // update replaces every field of the row with that id (all collections, every field changed) and of no other row
+    let t_other = Task { id: utils::longid(), ..t.clone() };
+    store.tasks().create(&t_other).unwrap();
+    let t2 = Task { id: t.id.clone(), pid: "g_pid".into(), tid: "g_tid".into(), node_data: "g_node".into(), kind: "g_kind".into(), prev: Some("g_prev".into()),
+        name: "g_name".into(), state: "g_state".into(), data: "g_data".into(), err: Some("g_err".into()), start_time: 121, end_time: 122, hooks: "g_hooks".into(), timestamp: 123 };
+    store.tasks().update(&t2).unwrap();
+    let u2 = store.tasks().find(&t.id).unwrap();
+    cmp!("tasks(update)", t2, u2, id, pid, tid, node_data, kind, prev, name, state, data, err, start_time, end_time, hooks, timestamp);
+    let u3 = store.tasks().find(&t_other.id).unwrap();
+    cmp!("tasks(update of another row)", t_other, u3, id, pid, tid, node_data, kind, prev, name, state, data, err, start_time, end_time, hooks, timestamp);
+    let m2 = Model { id: m.id.clone(), name: "g_name".into(), ver: 131, size: 132, create_time: 133, update_time: 134, data: "g_data".into(), timestamp: 135 };
+    store.models().update(&m2).unwrap();
+    let n2 = store.models().find(&m.id).unwrap();
+    cmp!("models(update)", m2, n2, id, name, ver, size, create_time, update_time, data, timestamp);
+    let e2 = Event { id: e.id.clone(), name: "g_name".into(), mid: "g_mid".into(), ver: 141, uses: "g_uses".into(), params: "g_params".into(), create_time: 142, timestamp: 143 };
+    store.events().update(&e2).unwrap();
+    let f2 = store.events().find(&e.id).unwrap();
+    cmp!("events(update)", e2, f2, id, name, mid, ver, uses, params, create_time, timestamp);
+    let g3 = Message { id: g.id.clone(), tid: "g_tid".into(), name: "g_name".into(), state: MessageState::Error, r#type: "g_type".into(),
+        model: "g_model".into(), pid: "g_pid".into(), nid: "g_nid".into(), mid: "g_mid".into(), key: "g_key".into(), uses: "g_uses".into(),
+        inputs: "g_inputs".into(), outputs: "g_outputs".into(), tag: "g_tag".into(), start_time: 151, end_time: 152, chan_id: "g_chan".into(),
+        chan_pattern: "g_pat".into(), create_time: 253, update_time: 254, retry_times: 25, status: acts::data::MessageStatus::Completed, timestamp: 256 };
+    store.messages().update(&g3).unwrap();
+    let h3 = store.messages().find(&g.id).unwrap();
+    cmp!("messages(update, all fields)", g3, h3, id, tid, name, state, r#type, model, pid, nid, mid, key, uses, inputs, outputs, tag, start_time, end_time,
+        chan_id, chan_pattern, create_time, update_time, retry_times, status, timestamp);
+    let k2 = Package { id: k.id.clone(), desc: "g_desc".into(), icon: "g_icon".into(), doc: "g_doc".into(), version: "g_version".into(),
+        schema: "g_schema".into(), run_as: acts::ActRunAs::Func, resources: "g_res".into(), catalog: acts::ActPackageCatalog::Core, built_in: false,
+        create_time: 161, update_time: 162, timestamp: 163 };
+    store.packages().update(&k2).unwrap();
+    let l2 = store.packages().find(&k.id).unwrap();
+    cmp!("packages(update)", k2, l2, id, desc, icon, doc, version, schema, run_as, resources, catalog, built_in, create_time, update_time, timestamp);
     for b in bad.iter() { println!("{b}"); }
     assert!(bad.is_empty(), "{} field(s) differ", bad.len());
 }
